@@ -563,6 +563,7 @@ def gen_undef(ctx: Ctx):
         lin = linear(fn)
         defs = [(g, _defs_of(g.node)) for g in lin.stmts]
         locs = set().union(*[d for _, d in defs]) - params if defs else set()
+        locs -= {nm for x in ast.walk(fn) if isinstance(x, (ast.Nonlocal, ast.Global)) for nm in x.names}   # assigned here, but defined (and initialised) in an enclosing scope
         if not locs:
             continue
         handlers = {h.name for n in walk_no_nested(fn) if isinstance(n, ast.Try) for h in n.handlers if h.name}
